@@ -88,7 +88,9 @@ def renames(prog, edges=None, funcs=None):
         changed = False
         for g in sorted(new - set(mapping)):
             mapped_callers = {mapping.get(c, c) for c in callers.get(g, ())}
-            cands = [f for f in sorted(vanished - set(mapping.values())) if parent(f) == parent(g) and set(recorded[f]) == mapped_callers]
+            last = lambda x: x.rsplit("::", 1)[-1]  # noqa: E731
+            # renamed in place (same module / impl) or moved under the same name (another module / impl)
+            cands = [f for f in sorted(vanished - set(mapping.values())) if (parent(f) == parent(g) or last(f) == last(g)) and set(recorded[f]) == mapped_callers]
             if len(cands) == 1:
                 mapping[g] = cands[0]
                 changed = True
